@@ -78,21 +78,57 @@ def config_impl(repo, opt):
     return src
 
 
+CMAKE_GEN = """cmake_minimum_required(VERSION 3.14)
+project(gcns CXX)
+include(${REPO}/cmake/get_container_node_sizes.cmake)
+get_container_node_sizes(${OUT})
+"""
+
+
 def node_sizes_header(repo, incdir):
-    """container_node_sizes_impl.hpp: regenerated from cmake/get_node_size.cpp by tools/gen_node_sizes.py
-    (same method as the repository's cmake module); falls back to the file in <repo>/_build."""
+    """container_node_sizes_impl.hpp: produced by RUNNING the repository's own cmake module
+    (<repo>/cmake/get_container_node_sizes.cmake: table probes and the X_node_size<T> formula text) in a scratch cmake
+    project under <build>; cached on the content of <repo>/cmake. The table is then read back from the generated header
+    (<out>.json) for the Lean side. Falls back to tools/gen_node_sizes.py if cmake cannot run."""
     out = os.path.join(incdir, "container_node_sizes_impl.hpp")
+    h = hashlib.sha256()
+    cm = os.path.join(repo, "cmake")
+    for f in sorted(os.listdir(cm)):
+        h.update(f.encode())
+        h.update(open(os.path.join(cm, f), "rb").read())
+    key = h.hexdigest()
+    cache = os.path.join(BUILD, "gcns", key)
+    cached = os.path.join(cache, "container_node_sizes_impl.hpp")
+    if not os.path.exists(cached):
+        os.makedirs(cache, exist_ok=True)
+        open(os.path.join(cache, "CMakeLists.txt"), "w").write(CMAKE_GEN)
+        r = subprocess.run(["cmake", "-S", cache, "-B", os.path.join(cache, "b"), "-G", "Ninja", "-DREPO=" + repo, "-DOUT=" + cached,
+                            "-DCMAKE_CXX_COMPILER=" + CXX], capture_output=True, text=True)
+        shutil.rmtree(os.path.join(cache, "b"), ignore_errors=True)
+        if r.returncode != 0 or not os.path.exists(cached):
+            sys.stderr.write("cmake node size generation failed: %s\n" % (r.stdout + r.stderr)[-1500:])
+            if os.path.exists(cached):
+                os.remove(cached)
+    if os.path.exists(cached):
+        shutil.copy(cached, out)
+        write_node_size_json(out)
+        return out
     gen = os.path.join(VERIF, "tools", "gen_node_sizes.py")
-    if os.path.exists(gen):
-        r = subprocess.run([sys.executable, gen, repo, out], capture_output=True, text=True)
-        if r.returncode == 0 and os.path.exists(out):
-            return out
-        sys.stderr.write("gen_node_sizes failed: %s\n" % r.stderr[-2000:])
-    cand = os.path.join(repo, "_build", "src", "container_node_sizes_impl.hpp")
-    if not os.path.exists(cand):
-        cand = "/repo/_build/src/container_node_sizes_impl.hpp"
-    shutil.copy(cand, out)
-    return out
+    r = subprocess.run([sys.executable, gen, repo, out], capture_output=True, text=True)
+    if r.returncode == 0 and os.path.exists(out):
+        return out
+    raise RuntimeError("cannot generate container_node_sizes_impl.hpp: " + r.stderr[-1000:])
+
+
+def write_node_size_json(header):
+    """table {container: {alignment: base}} and the formula text per container, parsed from the generated header"""
+    txt = open(header).read()
+    table, formula = {}, {}
+    for m in re.finditer(r"struct (\w+)_node_size<(\d+)>\s*:\s*std::integral_constant<std::size_t,\s*(\d+)>", txt):
+        table.setdefault(m.group(1), {})[m.group(2)] = int(m.group(3))
+    for m in re.finditer(r"template <typename T>\s*struct (\w+)_node_size\s*:\s*std::integral_constant<std::size_t,\s*(.*?)>\s*\{\};", txt, re.S):
+        formula[m.group(1)] = " ".join(m.group(2).split())
+    json.dump(dict(table, __formula__=formula), open(header + ".json", "w"), indent=1)
 
 
 def include_flags(repo, cfg):
